@@ -1,12 +1,18 @@
 #!/bin/bash
-# mirdump.sh <crate-dir-name> [hooks]  -> /verif/.build/mir/<crate>.mir   (regenerated from /repo's working tree)
+# mirdump.sh <crate-dir-name> [hooks|nohooks] [outdir]  -> <outdir>/<crate>.mir   (regenerated from /repo's working tree)
+# The cargo target dir with the compiled dependencies is shared; touch + rustc run under a lock so that concurrent
+# checks each get the MIR of a compilation they triggered themselves.
 set -e
 c=$1
-mkdir -p /verif/.build/mir
+out=${3:-/verif/.build/work/adhoc/mir}
+mkdir -p "$out" /verif/.build
 cd /repo/$c
 flags=""
 if [ "$2" = "hooks" ]; then flags="--cfg metrics_verif"; fi
-touch src/lib.rs
-CARGO_NET_OFFLINE=true CARGO_TARGET_DIR=/verif/.build/mir-target RUSTFLAGS="$flags" cargo +nightly --config /verif/.build/cargo-config.toml rustc --offline --lib -- -Zunpretty=mir -C debug-assertions=off -C overflow-checks=on > /verif/.build/mir/$c.mir.tmp 2> /verif/.build/mir/$c.err
-mv /verif/.build/mir/$c.mir.tmp /verif/.build/mir/$c.mir
-wc -l /verif/.build/mir/$c.mir
+(
+  flock 9
+  touch src/lib.rs
+  CARGO_NET_OFFLINE=true CARGO_TARGET_DIR=/verif/.build/mir-target RUSTFLAGS="$flags" cargo +nightly --config /verif/.build/cargo-config.toml rustc --offline --lib -- -Zunpretty=mir -C debug-assertions=off -C overflow-checks=on > "$out/$c.mir.tmp" 2> "$out/$c.err"
+) 9> /verif/.build/mirdump.lock
+mv "$out/$c.mir.tmp" "$out/$c.mir"
+wc -l "$out/$c.mir"
